@@ -36,6 +36,8 @@ pub enum FK {
     UnionReorder,
     UnionMismatch,
     NumberOutOfRange,
+    MissingField,
+    LeafCorrupt,
     QuerySpelling,
     ByteFlip,
     // parameters
@@ -75,6 +77,8 @@ impl FK {
             FK::UnionReorder => "union_reorder",
             FK::UnionMismatch => "union_mismatch",
             FK::NumberOutOfRange => "number_out_of_range",
+            FK::MissingField => "missing_field",
+            FK::LeafCorrupt => "leaf_corrupt",
             FK::QuerySpelling => "query_spelling",
             FK::ByteFlip => "byte_flip",
             FK::ParamDrop => "param_drop",
@@ -224,6 +228,8 @@ fn fault_counter(k: FK) -> &'static str {
         FK::UnionReorder => "fault.union_reorder_fired",
         FK::UnionMismatch => "fault.union_mismatch_fired",
         FK::NumberOutOfRange => "fault.number_out_of_range_fired",
+        FK::MissingField => "fault.missing_field_fired",
+        FK::LeafCorrupt => "fault.leaf_corrupt_fired",
         FK::QuerySpelling => "fault.query_spelling_fired",
         FK::ByteFlip => "fault.byte_flip_fired",
         FK::ParamDrop => "fault.param_drop_fired",
@@ -677,6 +683,113 @@ pub fn number_out_of_range(t: &mut Tape, ty: &Ty, doc: &mut Value) -> Option<(St
     Some((raw.to_string(), format!("{:?} leaf := {}", prim, raw)))
 }
 
+/// What an IR-guided walk can do to a document besides adding members.
+pub enum Damage {
+    /// remove a member the object type requires (not an optional, not a collection)
+    MissingField,
+    /// replace a uuid / rid / bearer token / datetime leaf by text that is not one
+    LeafCorrupt,
+}
+
+pub fn damage_doc(t: &mut Tape, ty: &Ty, doc: &mut Value, what: Damage, alpha: &str) -> Option<String> {
+    enum Site {
+        Field(String),
+        Leaf(Prim),
+    }
+    fn walk(ty: &Ty, v: &Value, path: &mut Vec<PathEl>, out: &mut Vec<(Vec<PathEl>, Site)>, fields_wanted: bool) {
+        let ir = ir();
+        match ty {
+            Ty::Prim(p @ (Prim::Uuid | Prim::Rid | Prim::Bearertoken | Prim::Datetime)) => {
+                if !fields_wanted && v.is_string() {
+                    out.push((path.clone(), Site::Leaf(*p)));
+                }
+            }
+            Ty::Prim(_) => {}
+            Ty::Opt(i) => {
+                if !v.is_null() {
+                    walk(i, v, path, out, fields_wanted)
+                }
+            }
+            Ty::List(i) | Ty::Set(i) => {
+                if let Value::Array(a) = v {
+                    for (idx, x) in a.iter().enumerate() {
+                        path.push(PathEl::Idx(idx));
+                        walk(i, x, path, out, fields_wanted);
+                        path.pop();
+                    }
+                }
+            }
+            Ty::Map(_, vt) => {
+                if let Value::Object(m) = v {
+                    for (k, x) in m {
+                        path.push(PathEl::Key(k.clone()));
+                        walk(vt, x, path, out, fields_wanted);
+                        path.pop();
+                    }
+                }
+            }
+            Ty::Ref(n) => match &ir.defs[n] {
+                Def::Alias(i, _) => walk(i, v, path, out, fields_wanted),
+                Def::Enum(_) => {}
+                Def::Object(fields) => {
+                    if let Value::Object(m) = v {
+                        for (f, fty) in fields {
+                            if let Some(x) = m.get(f) {
+                                let required = !matches!(ir.dealias(fty), Ty::Opt(_) | Ty::List(_) | Ty::Set(_) | Ty::Map(_, _));
+                                if fields_wanted && required {
+                                    out.push((path.clone(), Site::Field(f.clone())));
+                                }
+                                path.push(PathEl::Key(f.clone()));
+                                walk(fty, x, path, out, fields_wanted);
+                                path.pop();
+                            }
+                        }
+                    }
+                }
+                Def::Union(fields) => {
+                    if let Value::Object(m) = v {
+                        if let Some(Value::String(tag)) = m.get("type") {
+                            if let Some((f, fty)) = fields.iter().find(|(f, _)| f == tag) {
+                                if let Some(x) = m.get(f) {
+                                    path.push(PathEl::Key(f.clone()));
+                                    walk(fty, x, path, out, fields_wanted);
+                                    path.pop();
+                                }
+                            }
+                        }
+                    }
+                }
+            },
+        }
+    }
+    let mut out = Vec::new();
+    walk(ty, doc, &mut Vec::new(), &mut out, matches!(what, Damage::MissingField));
+    if out.is_empty() {
+        return None;
+    }
+    let i = t.draw(out.len() as u64) as usize;
+    let (path, site) = out.swap_remove(i);
+    let mut cur = doc;
+    for el in &path {
+        cur = match el {
+            PathEl::Idx(i) => &mut cur[*i],
+            PathEl::Key(k) => &mut cur[k.as_str()],
+        };
+    }
+    match site {
+        Site::Field(f) => {
+            cur.as_object_mut()?.remove(&f)?;
+            Some(format!("required member {:?} removed", f))
+        }
+        Site::Leaf(p) => {
+            let bad = undecodable(t, &Ty::Prim(p), alpha)?;
+            let label = format!("{:?} leaf := {:?}", p, bad);
+            *cur = Value::String(bad);
+            Some(label)
+        }
+    }
+}
+
 /// Puts `raw` where the placeholder string stands.
 pub fn substitute_raw(bytes: Vec<u8>, raw: &str) -> Vec<u8> {
     let needle = format!("\"{}\"", RAW_PLACEHOLDER);
@@ -823,10 +936,13 @@ fn undecodable(t: &mut Tape, ty: &Ty, alpha: &str) -> Option<String> {
             3 => "ri.A.b.c.d".into(),
             _ => "ri.a.b.c.".into(),
         },
-        Ty::Prim(Prim::Bearertoken) => match t.draw(4) {
+        Ty::Prim(Prim::Bearertoken) => match t.draw(7) {
             0 => String::new(),
             1 => "a b".into(),
             2 => "=".into(),
+            3 => format!("={}", alpha),
+            4 => format!("=={}==", alpha),
+            5 => format!("{}={}", alpha, alpha),
             _ => format!("{}!", alpha),
         },
         Ty::Prim(Prim::Datetime) => match t.draw(5) {
@@ -922,7 +1038,11 @@ fn param_faults(ctx: &Ctx, plan: &mut CallPlan, ep: &EpMeta, wire: &mut WireReq,
                 .and_then(|v| v.strip_prefix(prefix.as_str()))
                 .unwrap_or(&tok)
                 .to_string();
-            let (v, what): (Vec<u8>, &str) = match ctx.draw(10) {
+            let (v, what): (Vec<u8>, &str) = match ctx.draw(12) {
+                // padding characters where the token grammar (token characters, then any number of
+                // '=') does not allow them
+                10 => (format!("{}={}", prefix, tok).into_bytes(), "padding before the token"),
+                11 => (format!("{}{}=={}", prefix, tok, alpha).into_bytes(), "padding inside the token"),
                 0 => (format!("Basic {}", tok).into_bytes(), "wrong scheme"),
                 1 => (format!("{}bad token{}!", prefix, alpha).into_bytes(), "invalid token characters"),
                 2 => (prefix.trim_end().as_bytes().to_vec(), "empty token"),
@@ -1199,7 +1319,23 @@ pub fn apply_request_faults(
                 }
             }
         }
-        if still_json && !fired.iter().any(|f| matches!(f.kind, FK::TypeConfusion)) && want(plan, FK::NumberOutOfRange) {
+        if still_json && !fired.iter().any(|f| matches!(f.kind, FK::TypeConfusion)) {
+            let kind = if want(plan, FK::MissingField) {
+                Some(FK::MissingField)
+            } else if want(plan, FK::LeafCorrupt) {
+                Some(FK::LeafCorrupt)
+            } else {
+                None
+            };
+            if let (Some(kind), Some(ty), Ok(mut v)) = (kind, &body_ty, serde_json::from_slice::<Value>(&bytes)) {
+                let what = if kind == FK::MissingField { Damage::MissingField } else { Damage::LeafCorrupt };
+                if let Some(label) = ctx.with_tape(|t| damage_doc(t, ty, &mut v, what, &plan.alpha)) {
+                    bytes = serde_json::to_vec(&v).unwrap();
+                    fire(ctx, plan, &mut fired, kind, label, Expect::Reject { code: "InvalidArgument", param: None });
+                }
+            }
+        }
+        if still_json && !fired.iter().any(|f| matches!(f.kind, FK::TypeConfusion | FK::MissingField | FK::LeafCorrupt)) && want(plan, FK::NumberOutOfRange) {
             if let (Some(ty), Ok(mut v)) = (&body_ty, serde_json::from_slice::<Value>(&bytes)) {
                 if let Some((raw, label)) = ctx.with_tape(|t| number_out_of_range(t, ty, &mut v)) {
                     bytes = substitute_raw(serde_json::to_vec(&v).unwrap(), &raw);
@@ -1308,7 +1444,7 @@ pub fn apply_request_faults(
         }
     }
     let json_now = wire.header("content-type") == Some(JSON_CT);
-    if json_now && !sent.streaming && !fired.iter().any(|f| matches!(f.kind, FK::UnknownField | FK::TypeConfusion | FK::UnionMismatch | FK::UnionReorder | FK::NumberOutOfRange)) && want(plan, FK::WrongDocument) {
+    if json_now && !sent.streaming && !fired.iter().any(|f| matches!(f.kind, FK::UnknownField | FK::TypeConfusion | FK::UnionMismatch | FK::UnionReorder | FK::NumberOutOfRange | FK::MissingField | FK::LeafCorrupt)) && want(plan, FK::WrongDocument) {
         // a different, perfectly well-formed document
         let d: &[u8] = ctx.with_tape(|t| *t.pick(&[&b"null"[..], b"{}", b"[]", b"0", b"\"x\"", b"true", b"[null]", b"{\"type\":\"x\"}", b"1e999", b" null "]));
         bytes = d.to_vec();
@@ -1449,7 +1585,23 @@ pub fn apply_response_faults(
                 }
             }
         }
-        if want(plan, FK::NumberOutOfRange) {
+        {
+            let kind = if want(plan, FK::MissingField) {
+                Some(FK::MissingField)
+            } else if want(plan, FK::LeafCorrupt) {
+                Some(FK::LeafCorrupt)
+            } else {
+                None
+            };
+            if let (Some(kind), Some(ty), Ok(mut v)) = (kind, &ret_ty, serde_json::from_slice::<Value>(&bytes)) {
+                let what = if kind == FK::MissingField { Damage::MissingField } else { Damage::LeafCorrupt };
+                if let Some(label) = ctx.with_tape(|t| damage_doc(t, ty, &mut v, what, &plan.alpha)) {
+                    bytes = serde_json::to_vec(&v).unwrap();
+                    fire(ctx, plan, &mut fired, kind, label, Expect::Reject { code: "InvalidArgument", param: None });
+                }
+            }
+        }
+        if !fired.iter().any(|f| matches!(f.kind, FK::MissingField | FK::LeafCorrupt)) && want(plan, FK::NumberOutOfRange) {
             if let (Some(ty), Ok(mut v)) = (&ret_ty, serde_json::from_slice::<Value>(&bytes)) {
                 if let Some((raw, label)) = ctx.with_tape(|t| number_out_of_range(t, ty, &mut v)) {
                     bytes = substitute_raw(serde_json::to_vec(&v).unwrap(), &raw);
@@ -1498,7 +1650,7 @@ pub fn apply_response_faults(
             fire(ctx, plan, &mut fired, FK::TrailingWs, "2".into(), Expect::Transparent);
         }
     }
-    if is_json && !resp.streaming && wire.status != 204 && !fired.iter().any(|f| matches!(f.kind, FK::UnknownField | FK::TypeConfusion | FK::UnionMismatch | FK::UnionReorder | FK::NumberOutOfRange)) && want(plan, FK::WrongDocument) {
+    if is_json && !resp.streaming && wire.status != 204 && !fired.iter().any(|f| matches!(f.kind, FK::UnknownField | FK::TypeConfusion | FK::UnionMismatch | FK::UnionReorder | FK::NumberOutOfRange | FK::MissingField | FK::LeafCorrupt)) && want(plan, FK::WrongDocument) {
         let d: &[u8] = ctx.with_tape(|t| *t.pick(&[&b"null"[..], b"{}", b"[]", b"0", b"\"x\"", b"true", b"[null]", b"{\"type\":\"x\"}", b"1e999", b" null "]));
         bytes = d.to_vec();
         fire(ctx, plan, &mut fired, FK::WrongDocument, String::from_utf8_lossy(d).to_string(), Expect::Judge);
